@@ -175,7 +175,10 @@ pub fn wrapper4<S: Src>(s: &mut S) {
     let r = f.call(&mut vm);
     assert!(matches!(r, Ok(Value::Integer(44))), "C18.wrapper.returns_native_result");
     let rec = vm.get_aux();
-    assert!(rec.i == v, "C18.wrapper.four_params_in_declaration_order");
+    assert!(
+        rec.i[0] == v[0] && rec.i[1] == v[1] && rec.i[2] == v[2] && rec.i[3] == v[3],
+        "C18.wrapper.four_params_in_declaration_order"
+    );
     assert!(vm.runtime_data.verif_stack_len() == 1, "C18.wrapper.consumes_exactly_k_values");
     std::mem::forget(r);
     std::mem::forget(vm);
